@@ -133,4 +133,37 @@ def parseHeaders : List (List Char) → Option (List Parsed)
 def Parsed.get (p : Parsed) (k : String) : List Char :=
   (p.params.lookup k.toList).getD []
 
+/-! ### Duplicate parameters: the last one of a name counts -/
+
+/-- **duplicate_param_last_wins**: after `params[strings.ToLower(key)] = value` the parameter `k` has the value
+just set, whatever was stored under that name before (an attacker-supplied earlier `resource_metadata`, `scope`
+or `error` of the same challenge does not survive a later one). -/
+theorem duplicate_param_last_wins (k v : List Char) : ∀ (acc : Params), (setParam k v acc).lookup k = some v
+  | [] => by simp [setParam, List.lookup]
+  | (k', v') :: t => by
+    simp only [setParam]
+    split
+    · simp [List.lookup]
+    · rename_i h
+      have : (k == k') = false := by simpa using fun e => h e.symm
+      simp only [List.lookup, this]
+      exact duplicate_param_last_wins k v t
+
+/-- Setting `k` leaves every other parameter as it was. -/
+theorem setParam_other (k v k2 : List Char) (h : k2 ≠ k) : ∀ (acc : Params), (setParam k v acc).lookup k2 = acc.lookup k2
+  | [] => by
+    have : (k2 == k) = false := by simpa using h
+    simp [setParam, List.lookup, this]
+  | (k', v') :: t => by
+    simp only [setParam]
+    split
+    · rename_i he
+      subst he
+      have : (k2 == k') = false := by simpa using h
+      simp [List.lookup, this]
+    · simp only [List.lookup]
+      split
+      · rfl
+      · exact setParam_other k v k2 h t
+
 end OAuth.Challenge
